@@ -63,6 +63,8 @@ pub struct Gen<'a> {
     group: Option<u32>,
     /// no further positional of the current level may take a word
     pos_closed: bool,
+    /// no later positional that takes words from the left of `--` can get one
+    pos_closed_left: bool,
 }
 
 /// payloads that are legal in every spelling (do not start with `-` or `=`, not empty)
@@ -95,6 +97,7 @@ impl<'a> Gen<'a> {
             max_rep: 3,
             group: None,
             pos_closed: false,
+            pos_closed_left: false,
         }
     }
 
@@ -375,7 +378,8 @@ fn go(spec: &Spec, g: &mut Gen, present: bool, out: &mut Vec<Atom>) -> Option<V>
                 if is_pos {
                     // positionals take words in declaration order: once one is absent (or one
                     // repeats) none of the later ones can get a word
-                    if g.pos_closed {
+                    let side = first_leaf_strict(x);
+                    if g.pos_closed || (g.pos_closed_left && side != Some(Strict::Strict)) {
                         vs.push(absent_value(x)?);
                         continue;
                     }
@@ -390,7 +394,16 @@ fn go(spec: &Spec, g: &mut Gen, present: bool, out: &mut Vec<Atom>) -> Option<V>
                 let before = out.len();
                 vs.push(go(x, g, force, out)?);
                 if is_pos && (out.len() == before || repeats(x)) {
-                    g.pos_closed = true;
+                    // a word for the left side only leaves the right side of `--` to the strict
+                    // positionals that follow
+                    let any_later = xs[ix + 1..]
+                        .iter()
+                        .any(|y| first_leaf_strict(y) == Some(Strict::Any));
+                    if first_leaf_strict(x) == Some(Strict::NonStrict) && !any_later {
+                        g.pos_closed_left = true;
+                    } else {
+                        g.pos_closed = true;
+                    }
                 }
             }
             Some(V::Tuple(vs))
@@ -439,12 +452,14 @@ fn go(spec: &Spec, g: &mut Gen, present: bool, out: &mut Vec<Atom>) -> Option<V>
         Spec::Cmd(c) => {
             let mut inner = Vec::new();
             let saved = g.group;
-            let saved_closed = g.pos_closed;
+            let saved_closed = (g.pos_closed, g.pos_closed_left);
             g.group = None;
             g.pos_closed = false;
+            g.pos_closed_left = false;
             let v = go(&c.opts.root, g, false, &mut inner);
             g.group = saved;
-            g.pos_closed = saved_closed;
+            g.pos_closed = saved_closed.0;
+            g.pos_closed_left = saved_closed.1;
             let v = v?;
             out.push(Atom::Cmd {
                 id: c.id,
@@ -457,6 +472,17 @@ fn go(spec: &Spec, g: &mut Gen, present: bool, out: &mut Vec<Atom>) -> Option<V>
         }
         Spec::Pure(id) => Some(V::Tag(*id)),
         Spec::Fail(_) => None,
+    }
+}
+
+fn first_leaf_strict(spec: &Spec) -> Option<Strict> {
+    match spec {
+        Spec::Item(i) => match &i.leaf {
+            Leaf::Pos { strict, .. } => Some(*strict),
+            _ => None,
+        },
+        Spec::Wrap { inner, .. } => first_leaf_strict(inner),
+        _ => None,
     }
 }
 
